@@ -280,10 +280,14 @@ func evalLog(r *evid.Run, alpha []*regattapb.Command, log []int, withInterp bool
 	}
 	for at := first; at <= n; at++ {
 		for _, ip := range interps {
-			if strings.HasSuffix(ip, ":stale") && at < 2 {
-				continue
+			if strings.HasSuffix(ip, ":stale") && (at < 2 || !withInterp) {
+				continue // longer logs: fresh receivers only
 			}
-			for _, cuts := range []int{canonCuts, 0} {
+			batchings := []int{canonCuts, 0}
+			if !withInterp {
+				batchings = batchings[:1] // longer logs: one entry per call only
+			}
+			for _, cuts := range batchings {
 				c := Case{Log: log, Cuts: cuts, Interp: ip, At: at}
 				got := run(alpha, c)
 				r.Evaluations.Add(1)
@@ -308,7 +312,7 @@ func Run(r *evid.Run) {
 	if r.Thorough() {
 		depth, idepth = 4, 3
 	}
-	r.Rule(fmt.Sprintf("every log of length 0..%d over a %d-entry alphabet (puts, deletes, range delete, toggling and empty-branch transactions, sequences/entries with and without leader index, leader-index reset, batches; non-dense entry indices) x ALL 2^(n-1) ways to cut it into apply calls on fresh real FSMs; for logs of length <= %d additionally at every cut point (longer logs: after the last entry) one of {Sync, close+reopen, snapshot save + recover into a fresh or a stale replica for all 4 saver/receiver format pairs} under two batchings. Oracle: per-entry results, full content, GetHash, applied and leader index identical to the one-entry-per-call run, which itself must equal the sorted-map model. Non-trivial: the log changed the model state or returned a response; distinct = distinct canonical observations", depth, len(alpha), idepth))
+	r.Rule(fmt.Sprintf("every log of length 0..%d over a %d-entry alphabet (puts, deletes, range delete, toggling and empty-branch transactions, sequences/entries with and without leader index, leader-index reset, batches; non-dense entry indices) x ALL 2^(n-1) ways to cut it into apply calls on fresh real FSMs; for logs of length <= %d additionally at every cut point (longer logs: after the last entry only, fresh receivers, one entry per call) one of {Sync, close+reopen, snapshot save + recover into a fresh or a stale replica for all 4 saver/receiver format pairs} under two batchings. Oracle: per-entry results, full content, GetHash, applied and leader index identical to the one-entry-per-call run, which itself must equal the sorted-map model. Non-trivial: the log changed the model state or returned a response; distinct = distinct canonical observations", depth, len(alpha), idepth))
 	total := par.SeqCount(len(alpha), depth)
 	done := par.For(total, r.Expired, func(i int64) {
 		log := par.SeqAt(len(alpha), depth, i)
